@@ -5,6 +5,8 @@ import gen as G
 import conv
 
 COQ_IMPORTS = ['Model.DFA', 'Model.NFA', 'Model.DFAOps', 'Model.Lang', 'Judge.C14_judge']
+PDA_FREE = True      # no PDA is involved: the recycling pass runs with GambaTools.pda_epsilon_closure_max_iterations = 3
+LOG_SAFE = True      # no printed output is read back: the recycling pass runs with GambaTools.enable_logging = True
 RULE = ('pairs: all ordered pairs of total DFAs with <=2 states over {a} and a seeded sample of pairs over {a,b} (<=3 states), random pairs <=5 states x <=3 symbols: union / intersection / symmetric difference products; '
         'singles: all DFAs 2x2 and 3x1 (thorough: 4x1, 3x2 sample) and random <=7 states: complement, reverse, no_prefix, no_extend, remove_unreachable_states, reachable_states(q, 0|1); '
         'partial DFAs (random entries removed): make_total; finite languages: all subsets of words <=2 over {a,b} of size <=3 (quick: sample) and random languages: the helpers of language_algorithms. '
